@@ -175,9 +175,7 @@ func RunProperty(t *testing.T, cfg PropCfg) {
 			if len(viol) > 0 {
 				_, trace = RunC15Trace(cfg.ID, s)
 			}
-			if cfg.ID == "C01" || cfg.ID == "C15" {
-				ev.Sample(map[string]interface{}{"blocks": len(s.Blocks), "txs": s.NumTxs(), "node_b": s.Nodes, "first_block": s.Blocks[:min(1, len(s.Blocks))]}, 3)
-			}
+
 		} else {
 			opts := lab.NodeOpts{DB: "mem"}
 			if cfg.Opts != nil {
